@@ -1,4 +1,4 @@
-From Tetl Require Import Lib.Base C10.Model C10.Spec C10.ProofsParse C10.ProofsNc.
+From Tetl Require Import Lib.Base C10.Model C10.Spec C10.ProofsParse C10.ProofsNc C10.ProofsNcS.
 Require Extraction.
 Require Import ExtrOcamlBasic.
 Extraction Language OCaml.
@@ -7,5 +7,5 @@ Extraction Language OCaml.
 Extraction "C10_model.ml" wire_anchor
   from_integer_m to_chars_m to_string_m to_integer_m to_integer_nc_m from_chars_m ti_pair_m strto_m strto_integer_m ato_m idiv_m
   to_text to_chars_spec from_chars_spec strto_spec strto_class sto_spec ato_spec digits eval
-  gparse nc_unsigned_spec
+  gparse nc_unsigned_spec nc_signed_narrow_spec
   cast i8 u8 i16 u16 i32 u32 i64 u64 in_ty.
